@@ -140,3 +140,17 @@ package healthcheck
 //@   modifies *
 //@   ensures single_host_always_healthy: old(len(addrs)) == 1 ==> (forall a string :: (a in result) <==> old(a in addrs))
 //@   assert synced_before_checks: at state.getHealthy#0 :: forall a string :: (a in f.state.all) <==> (a in addrs)
+
+// ---- construction (C23): the thresholds the state machine runs with are the configured ones, with
+// the documented defaults (3 consecutive failures, 2 consecutive passes) in place of zero values.
+//@ func FilterConfig.applyDefaults
+//@   modifies c.Fails, c.Passes, c.Timeout
+//@   ensures defaults: c.Fails == (old(c.Fails) == 0 ? 3 : old(c.Fails)) && c.Passes == (old(c.Passes) == 0 ? 2 : old(c.Passes))
+
+//@ func newState
+//@   modifies *
+//@   ensures as_configured: result != nil && result.config.Fails == config.Fails && result.config.Passes == config.Passes
+
+//@ func NewFilter
+//@   modifies *
+//@   ensures documented_defaults: dyntype(result) == typeid(*filter) && unbox(result, *filter).state != nil && unbox(result, *filter).state.config.Fails == (config.Fails == 0 ? 3 : config.Fails) && unbox(result, *filter).state.config.Passes == (config.Passes == 0 ? 2 : config.Passes)
